@@ -452,3 +452,12 @@ package schema
 //@ func (*leaf).HasDefault
 //@   requires n != nil && n.typ != nil
 //@   ensures result == (!n.mandatory && type_hasdefault(n.typ))
+
+// ---------------------------------------------------------------------------
+// Path errors (C17): "the error for a rejected path identifies the first offending element" - for the path walked so
+// far, the last element is the offending one (the error's bad-element) and the elements before it are the error path.
+//@ func NewInvalidPathError
+//@   nopanic
+//@   ensures result != nil
+//@   ensures implies(len(path) >= 1, is(result, *mgmterror.UnknownElementApplicationError) && mgmt_badelem(result.(*mgmterror.UnknownElementApplicationError)) == path[len(path)-1])
+//@   ensures implies(len(path) >= 1, result.(*mgmterror.UnknownElementApplicationError).MgmtError.Path == pathstr(backing(path), off(path), len(path)-1))
